@@ -276,7 +276,7 @@ func pureNontrivial(texts []string, actions []pureAction) bool {
 func TestC08History(t *testing.T) {
 	run := h.Begin("C08", "history", "rapid: a pool of 1-4 generated programs (the C03 grammar without now/toDay, over the world of all data kinds) and 1-3 unrelated programs; a history of 4-24 actions {parse text i again, evaluate tree i with data variant j (full world / small map / no map) in a fresh runner with freshly built equal data, analyse tree i, parse-and-format a malformed text, evaluate and analyse an unrelated formula}; oracle: re-parsing gives an identical full dump (shape, values, Pos/End, ids, parent links, counters), every evaluation of (tree i, data j) equals the first one and equals the evaluation of a freshly parsed tree of the same text (value by deep address-free comparison, error by message), field analysis returns the same set, and the full dump of every tree is unchanged after every evaluation / analysis and at the end; non-trivial: a program with a call or assignment evaluated at least twice with other actions in between; distinct by case")
 	defer run.End(t)
-	h.RapidSetup(h.N(2500, 150000), "c08hist")
+	h.RapidSetup(h.N(2500, 600000), "c08hist")
 	rapid.Check(t, func(rt *rapid.T) {
 		var c pureCase
 		var plain []string
